@@ -302,6 +302,8 @@ fn premises(lang: &Lang, src: &str, toks: &[(u16, usize, usize)], events: &[Even
 }
 
 struct ParseObs {
+    /// the leaf tokens of the tree in order: (SyntaxKind code, start, end)
+    leaves: Vec<(u16, usize, usize)>,
     dump: TreeDump,
     text_eq: bool,
     errors: Vec<(usize, usize, String)>,
@@ -319,7 +321,13 @@ fn observe_parse(src: &str) -> Option<ParseObs> {
             .iter()
             .map(|e| (usize::from(e.range.start()), usize::from(e.range.end()), e.message.clone()))
             .collect();
+        let leaves = root
+            .descendants_with_tokens()
+            .filter_map(|el| el.into_token())
+            .map(|t| (t.kind() as u16, usize::from(t.text_range().start()), usize::from(t.text_range().end())))
+            .collect();
         ParseObs {
+            leaves,
             dump,
             text_eq,
             errors,
@@ -370,8 +378,13 @@ pub struct CaseInput {
 
 /// Run the real code on `input` and append the case block to `out`.  Returns false when an oracle
 /// failed (only used for statistics; the verdict is taken from the `# oracle` lines).
+/// Above this many tokens the model operations are not written (the list-based Lean model is
+/// quadratic in the number of tokens); the oracle still runs.
+pub const MAX_MODEL_TOKENS: usize = 7000;
+
 pub fn run_case(n: u64, input: &CaseInput, lang: &Lang, out: &mut Out, dump: bool) -> bool {
     let src = input.text.as_str();
+    let t_start = std::time::Instant::now();
     let mut fails: Vec<String> = Vec::new();
     let mut nontrivial = false;
     out.line(format!("case {n}"));
@@ -385,26 +398,33 @@ pub fn run_case(n: u64, input: &CaseInput, lang: &Lang, out: &mut Out, dump: boo
     let raw = catch_unwind(AssertUnwindSafe(|| raw_lex(src))).ok();
     let toks: Option<Vec<(u16, usize, usize)>> =
         catch_unwind(AssertUnwindSafe(|| lex(src).iter().map(tok3).collect())).ok();
+    let model_ops = toks.as_ref().map(|t| t.len() <= MAX_MODEL_TOKENS).unwrap_or(true);
+    if !model_ops {
+        out.line("# model operations skipped (more than MAX_MODEL_TOKENS tokens); oracle only");
+        out.count("cases_oracle_only");
+    }
     match (&raw, &toks) {
         (Some(raw), Some(toks)) => {
-            let mut l = String::from("raw");
-            if raw.is_empty() {
-                l.push_str(" -");
-            }
-            for (k, s, e) in raw {
-                let _ = write!(l, " {k} {s} {e}");
-            }
-            out.line(l);
-            out.line("lex");
             let rawtiles = tiles(raw, src.len());
             let t = tiles(toks, src.len());
-            out.line(format!(
-                "impl n={} h={:016x} tiles={} rawtiles={}",
-                toks.len(),
-                tokens_hash(toks),
-                t as u8,
-                rawtiles as u8
-            ));
+            if model_ops {
+                let mut l = String::from("raw");
+                if raw.is_empty() {
+                    l.push_str(" -");
+                }
+                for (k, s, e) in raw {
+                    let _ = write!(l, " {k} {s} {e}");
+                }
+                out.line(l);
+                out.line("lex");
+                out.line(format!(
+                    "impl n={} h={:016x} tiles={} rawtiles={}",
+                    toks.len(),
+                    tokens_hash(toks),
+                    t as u8,
+                    rawtiles as u8
+                ));
+            }
             if !t {
                 fails.push("token-tiling".into());
             }
@@ -453,20 +473,26 @@ pub fn run_case(n: u64, input: &CaseInput, lang: &Lang, out: &mut Out, dump: boo
                 break;
             }
         }
-        let mut l = String::from("toks");
-        if toks.is_empty() {
-            l.push_str(" -");
+        if model_ops {
+            let mut l = String::from("toks");
+            if toks.is_empty() {
+                l.push_str(" -");
+            } else if raw.as_ref() == Some(toks) {
+                // the post-pass changed nothing: the driver reuses the `raw` line
+                l.push_str(" =");
+            } else {
+                for (k, s, e) in toks {
+                    let _ = write!(l, " {k} {s} {e}");
+                }
+            }
+            out.line(l);
+            let mut l = String::from("ev");
+            for e in events {
+                l.push(' ');
+                l.push_str(&event_word(e));
+            }
+            out.line(l);
         }
-        for (k, s, e) in toks {
-            let _ = write!(l, " {k} {s} {e}");
-        }
-        out.line(l);
-        let mut l = String::from("ev");
-        for e in events {
-            l.push(' ');
-            l.push_str(&event_word(e));
-        }
-        out.line(l);
         out.add("events", events.len() as u64);
         let nfp = events
             .iter()
@@ -477,15 +503,19 @@ pub fn run_case(n: u64, input: &CaseInput, lang: &Lang, out: &mut Out, dump: boo
             nontrivial = true;
             out.count("cases_with_forward_parent");
         }
-        out.line("sink");
+        if model_ops {
+            out.line("sink");
+        }
         let prem = premises(lang, src, toks, events);
         let prem_s: String = prem.iter().map(|b| if *b { '1' } else { '0' }).collect();
         match &p1 {
             Some(p) => {
-                out.line(format!(
-                    "impl ok nodes={} toks={} h={:016x} text={} prem={}",
-                    p.dump.nodes, p.dump.tokens, p.dump.hash, p.text_eq as u8, prem_s
-                ));
+                if model_ops {
+                    out.line(format!(
+                        "impl ok nodes={} toks={} h={:016x} text={} prem={}",
+                        p.dump.nodes, p.dump.tokens, p.dump.hash, p.text_eq as u8, prem_s
+                    ));
+                }
                 out.add("tree_nodes", p.dump.nodes);
                 let d = p.dump.max_depth;
                 out.count(if d < 8 {
@@ -498,7 +528,11 @@ pub fn run_case(n: u64, input: &CaseInput, lang: &Lang, out: &mut Out, dump: boo
                     "tree_depth_ge256"
                 });
             }
-            None => out.line("impl panic"),
+            None => {
+                if model_ops {
+                    out.line("impl panic")
+                }
+            }
         }
         if prem.iter().any(|b| !*b) {
             fails.push(format!("premise-monitor balanced,fp,consumed,noeof,boundaries={prem_s}"));
@@ -512,6 +546,28 @@ pub fn run_case(n: u64, input: &CaseInput, lang: &Lang, out: &mut Out, dump: boo
         if !p.text_eq {
             fails.push("tree-text-differs-from-input".into());
         }
+        // the leaves of the tree are exactly the lexer's tokens, in order, with the lexer's kinds
+        // (parser cursor and sink cursor stay in step)
+        if let Some(lt) = catch_unwind(AssertUnwindSafe(|| lex(src))).ok() {
+            let want: Vec<(u16, usize, usize)> = lt
+                .iter()
+                .map(|t| {
+                    (
+                        trust_syntax::syntax::SyntaxKind::from(t.kind) as u16,
+                        usize::from(t.range.start()),
+                        usize::from(t.range.end()),
+                    )
+                })
+                .collect();
+            if want != p.leaves {
+                let at = want.iter().zip(p.leaves.iter()).position(|(a, b)| a != b).unwrap_or(want.len().min(p.leaves.len()));
+                fails.push(format!(
+                    "tree-leaves-differ-from-lexer-tokens at #{at}: lexer {:?} tree {:?}",
+                    want.get(at),
+                    p.leaves.get(at)
+                ));
+            }
+        }
         // error ranges
         let mut l = String::from("errs");
         if p.errors.is_empty() {
@@ -519,20 +575,22 @@ pub fn run_case(n: u64, input: &CaseInput, lang: &Lang, out: &mut Out, dump: boo
         }
         let mut inb = true;
         let mut attok = true;
+        let sig_ranges: std::collections::HashSet<(usize, usize)> = toks
+            .as_ref()
+            .map(|ts| ts.iter().filter(|t| !lang.is_trivia(t.0)).map(|t| (t.1, t.2)).collect())
+            .unwrap_or_default();
         for (a, b, _) in &p.errors {
-            let _ = write!(l, " {a} {b}");
+            if model_ops {
+                let _ = write!(l, " {a} {b}");
+            }
             if !(a <= b && *b <= src.len()) {
                 inb = false;
             }
-            let at_token = toks
-                .as_ref()
-                .map(|ts| ts.iter().any(|t| t.1 == *a && t.2 == *b && !lang.is_trivia(t.0)))
-                .unwrap_or(false);
-            if !(at_token || (*a == 0 && *b == 0)) {
+            if !(sig_ranges.contains(&(*a, *b)) || (*a == 0 && *b == 0)) {
                 attok = false;
             }
         }
-        if toks.is_some() && hook.is_some() {
+        if toks.is_some() && hook.is_some() && model_ops {
             out.line(l);
             out.line(format!("impl n={} inb={} attok={}", p.errors.len(), inb as u8, attok as u8));
         }
@@ -617,6 +675,11 @@ pub fn run_case(n: u64, input: &CaseInput, lang: &Lang, out: &mut Out, dump: boo
         }
     }
 
+    out.add(&format!("ms_class_{}", input.class), t_start.elapsed().as_millis() as u64);
+    if input.class == "deep" {
+        let kind: String = input.note.split(" d=").next().unwrap_or("").split(" n=").next().unwrap_or("").to_string();
+        out.add(&format!("ms_deep_{kind}"), t_start.elapsed().as_millis() as u64);
+    }
     if fails.is_empty() {
         out.line("# oracle ok");
     } else {
@@ -1509,11 +1572,16 @@ fn gen_valid(r: &mut Rng, max: usize) -> String {
 /// (so any depth terminates; generated up to 1500), statements / types / namespaces up to 200.
 pub const STATED_STMT_DEPTH: u64 = 200;
 pub const STATED_EXPR_DEPTH: u64 = 1500;
+/// Prefix-operator chains are cut by MAX_EXPRESSION_DEPTH before they recurse; exercised to:
+pub const GUARDED_EXPR_DEPTH: u64 = 40_000;
 
 fn gen_deep(r: &mut Rng) -> (String, String) {
-    let kind = r.below(16);
+    let kind = r.below(18);
     let stmt_d = *r.pick(&[1u64, 2, 3, 10, 50, 100, 150, 199, STATED_STMT_DEPTH]);
     let expr_d = *r.pick(&[1u64, 2, 10, 100, 500, 1022, 1023, 1024, 1025, 1026, 1200, STATED_EXPR_DEPTH]);
+    // bracketing shapes build trees as deep as the nesting and rowan's node cache is quadratic on
+    // those, so most of them stay near the guard boundary
+    let expr_d = if kind != 1 && expr_d > 1100 && r.chance(2, 3) { 1030 } else { expr_d };
     let wrap = |body: String| format!("PROGRAM p\n{body}\nEND_PROGRAM\n");
     let rep = |s: &str, n: u64| s.repeat(n as usize);
     let truncated = r.chance(1, 4); // leave the closers off: recovery from the deepest point
@@ -1539,7 +1607,7 @@ fn gen_deep(r: &mut Rng) -> (String, String) {
             (format!("pow-right-assoc d={d}"), wrap(format!("x := {}2;", rep("2**", d))))
         }
         5 => {
-            let d = expr_d.min(900);
+            let d = expr_d.min(400);
             let op = *r.pick(&["+", "-", "*", " AND ", " OR ", "=", "<"]);
             (format!("left-assoc chain n={d}"), wrap(format!("x := a{};", rep(&format!("{op}a"), d))))
         }
@@ -1587,6 +1655,20 @@ fn gen_deep(r: &mut Rng) -> (String, String) {
             let d = stmt_d;
             (format!("namespace d={d}"), format!("{}TYPE t : INT; END_TYPE{}\n", rep("NAMESPACE n ", d), if truncated { String::new() } else { rep(" END_NAMESPACE", d) }))
         }
+        15 => {
+            // far beyond MAX_EXPRESSION_DEPTH through prefix operators (one parser frame per level and a
+            // flat tree once the guard fires): the guard must turn this into errors, not into recursion
+            let d = *r.pick(&[10_000u64, 20_000, GUARDED_EXPR_DEPTH]);
+            let o = *r.pick(&["-", "NOT ", "+", "-+"]);
+            (format!("guarded prefix-operator chain {o:?} d={d}"), wrap(format!("x := {}1;", rep(o, d))))
+        }
+        16 => {
+            // beyond the guard with bracketing shapes (kept moderate: rowan's node cache makes deep
+            // left-nested trees quadratic)
+            let d = *r.pick(&[1_600u64, 2_000]);
+            let (o, c) = *r.pick(&[("(", ")"), ("f(", ")"), ("a[", "]"), ("2**", ""), ("(-", ")"), ("ADR(", ")")]);
+            (format!("guarded expr {o}{c} d={d}"), wrap(format!("x := {}1{};", rep(o, d), if truncated { String::new() } else { rep(c, d) })))
+        }
         _ => {
             let d = *r.pick(&[1u64, 10, 1000, 1900]);
             let (o, c) = *r.pick(&[("(*", "*)"), ("/*", "*/")]);
@@ -1629,7 +1711,7 @@ pub fn gen_case(seed: u64, n: u64, ctx: &Ctx) -> CaseInput {
             ("corpus-mutated", note, t)
         }
         72..=89 => ("valid", String::new(), gen_valid(&mut r, ctx.max_bytes)),
-        90..=93 => {
+        90..=94 => {
             let t = gen_valid(&mut r, ctx.max_bytes);
             let mut notes = String::new();
             let t = mutate(&mut r, ctx, t, &mut notes);
@@ -1690,6 +1772,51 @@ pub fn run(args: &Args) -> i32 {
     let mut out = Out::new();
     out.add("corpus_files", ctx.corpus.len() as u64);
     out.add("keyword_table", ctx.words.len() as u64);
+
+    if let Some(path) = args.extra.get("file") {
+        // ad-hoc replay of one text (witnesses): `vharness c12 --file <path> --out <cases> [--dump 1]`
+        let text = match std::fs::read_to_string(path) {
+            Ok(t) => t,
+            Err(e) => {
+                eprintln!("c12: {path}: {e}");
+                return 3;
+            }
+        };
+        if let Some(mode) = args.extra.get("probe") {
+            // stack probes for the report: where does a deep input die?  1 = parse and leak the result,
+            // 2 = parse and drop the result, 3 = lex only
+            eprintln!("probe {mode}: {} bytes", text.len());
+            match mode.as_str() {
+                "3" => eprintln!("tokens: {}", lex(&text).len()),
+                "1" => {
+                    let p = parse(&text);
+                    eprintln!("parsed, errors: {}", p.errors().len());
+                    let root = p.syntax();
+                    eprintln!("max depth: {}", dump_tree(&root).max_depth);
+                    std::mem::forget(root);
+                    std::mem::forget(p);
+                    eprintln!("leaked");
+                }
+                _ => {
+                    let p = parse(&text);
+                    eprintln!("parsed, errors: {}", p.errors().len());
+                    drop(p);
+                    eprintln!("dropped");
+                }
+            }
+            return 0;
+        }
+        let input = CaseInput {
+            class: "file",
+            note: path.clone(),
+            text,
+            ins_seed: args.seed,
+        };
+        let ok = run_case(0, &input, &lang, &mut out, dump);
+        out.finish(&args.out);
+        eprintln!("c12: oracle {}", if ok { "ok" } else { "FAIL" });
+        return 0;
+    }
 
     if is_child {
         // exactly one case, on this (main) thread with the process's own stack
